@@ -339,7 +339,16 @@ class Flow:
             if e.get("method") in ("then", "then_some") and (e.get("callee") or "").startswith("core::bool::"):
                 # `test.then(|| value)` / `test.then_some(value)`: the value is produced (resp. kept) only when the test holds
                 acond = cond + ((self.desc(e["recv"], env), ("true",), True),)
+            item_wise = e.get("method") in ("all", "any", "map", "for_each", "filter", "find", "position", "filter_map", "find_map", "try_for_each", "take_while",
+                                             "skip_while", "inspect", "flat_map", "map_while") and "Iterator" in (e.get("callee") or "")
             for x in e.get("args", []):
+                if item_wise and x.get("k") == "Closure" and len(x.get("params", [])) == 1:
+                    # the closure of an item-wise adaptor is the body of a loop over the receiver: its parameter is an element of the iterated collection(s),
+                    # and it is not evaluated at all for an empty collection
+                    cenv = dict(env)
+                    self.bind(x["params"][0], ("elem", self.desc(e["recv"], env)), cenv)
+                    self.visit(x["body"], cenv, acond + ((("loop-enter", x.get("l")), (), True),))
+                    continue
                 self.visit(x, env, acond)
             ad = [self.desc(e["recv"], env)] + [self.desc(x, env) for x in e.get("args", [])]
             self.calls.append((e.get("callee") or e.get("method"), ad, cond, e.get("l"), e))
